@@ -6,6 +6,7 @@ import (
 	"fmt"
 	"reflect"
 	"runtime"
+	"sync"
 	"sync/atomic"
 	"time"
 
@@ -22,6 +23,42 @@ import (
 type callerSpec struct {
 	Kind string `json:"kind"` // token kind label (relative to cache and served set of the phase)
 	Tok  tok    `json:"token"`
+	// Deadline: the caller's context carries a deadline (an instant a few milliseconds after its creation); the
+	// "cancel" action of the schedule ends the context with context.DeadlineExceeded once that instant has passed.
+	// Whatever the key set derives from this caller's context must not outlive it in other callers' results.
+	Deadline bool `json:"ctx_with_deadline,omitempty"`
+}
+
+// deadlineCtx is a context with a deadline whose expiry is fired by the harness (at the schedule's cancel action, never
+// before the instant has really passed), so that the schedule stays in control of when the caller's context ends.
+type deadlineCtx struct {
+	context.Context
+	at   time.Time
+	done chan struct{}
+	once sync.Once
+	dead atomic.Bool
+}
+
+func newDeadlineCtx(parent context.Context, d time.Duration) *deadlineCtx {
+	return &deadlineCtx{Context: parent, at: time.Now().Add(d), done: make(chan struct{})}
+}
+
+func (c *deadlineCtx) Deadline() (time.Time, bool) { return c.at, true }
+func (c *deadlineCtx) Done() <-chan struct{}       { return c.done }
+func (c *deadlineCtx) Err() error {
+	if c.dead.Load() {
+		return context.DeadlineExceeded
+	}
+	return nil
+}
+func (c *deadlineCtx) fire() {
+	c.once.Do(func() {
+		if d := time.Until(c.at); d > 0 {
+			time.Sleep(d + time.Millisecond)
+		}
+		c.dead.Store(true)
+		close(c.done)
+	})
 }
 
 // action is one step of the harness within a phase. Unless NoSettle is set the harness waits, after the step, until the
@@ -70,6 +107,7 @@ type callRec struct {
 	RetSeq      int64  `json:"ret"`
 	CancelSeq   int64  `json:"cancel,omitempty"` // stamp taken just before cancel() (0: never cancelled by the schedule)
 	CancelPoint string `json:"cancel_point,omitempty"`
+	ByDeadline  bool   `json:"ctx_ends_by_deadline,omitempty"`
 	OK          bool   `json:"ok"`
 	Err         string `json:"err,omitempty"`
 	PayloadOK   bool   `json:"-"`
@@ -301,7 +339,13 @@ func (rx *roundExec) runPhase(ps phaseSpec) (*phaseRec, bool) {
 	for _, cs := range ps.Callers {
 		c := &callRec{ID: rx.nextID, Kind: cs.Kind, Tok: cs.Tok}
 		rx.nextID++
-		c.ctx, c.cancel = context.WithCancel(fakejwks.WithCaller(context.Background(), c.ID))
+		if cs.Deadline {
+			dc := newDeadlineCtx(fakejwks.WithCaller(context.Background(), c.ID), 8*time.Millisecond)
+			c.ctx, c.cancel = dc, dc.fire
+			c.ByDeadline = true
+		} else {
+			c.ctx, c.cancel = context.WithCancel(fakejwks.WithCaller(context.Background(), c.ID))
+		}
 		ph.Calls = append(ph.Calls, c)
 	}
 	abandon := func() {
